@@ -10,7 +10,7 @@ from vf import gen, chain
 def cases(draw, tier):
     big = tier == "thorough"
     two = draw(st.integers(0, 3)) == 0
-    dav = big and draw(st.integers(0, 7)) == 0
+    dav = draw(st.integers(0, 7 if big else 95)) == 0
     if dav:
         # large enough for the iterative (Davidson) path: the optimizer only takes it when the local tensor has >= 1000 entries
         spec = draw(chain.chain_model_specs(10, 11, max_dim=2048, qn=draw(st.sampled_from([0, 1]))))
@@ -27,7 +27,7 @@ def cases(draw, tier):
                 s_["qn"] = draw(st.sampled_from([[[1], [-1]], [[-1], [1]]]))
     terms = draw(gen.hermitian_hamiltonian(spec, max_terms=5))
     nsweep = draw(st.integers(2, 6))
-    full = draw(st.integers(0, 2)) == 0  # equality case: sufficient bond limits, last sweeps without perturbation
+    full = draw(st.integers(0, 1)) == 0  # equality case: sufficient bond limits, last sweeps without perturbation
     sched = []
     for k in range(nsweep):
         M = 64 if full else draw(st.sampled_from([1, 2, 3, 4, 6, 8, 16, 64]))
@@ -43,6 +43,9 @@ def cases(draw, tier):
         sched = [[64, draw(st.sampled_from([0, 0.2])), draw(st.booleans())]] + [[64, 0, draw(st.booleans())] for _ in range(draw(st.integers(2, 4)))]
     if dav:
         sched = [[64, 0.2, False], [64, 0, True]]
+    per_bond = draw(st.booleans())
+    if per_bond and full:
+        sched = [[m_, p_, True] for m_, p_, _ in sched]  # per-bond limits are carried by CompressConfig objects
     return {"model": spec, "terms": terms, "hnorm": draw(st.sampled_from([0.5, 1.0, 3.0, 8.0])), "dav": dav,
             "q": draw(st.integers(0, 50)), "m0": draw(st.sampled_from([1, 2, 4, 8])), "rng": draw(st.integers(0, 10 ** 6)),
             "sched": sched, "method": "2site" if dav else draw(st.sampled_from(["1site", "2site", "2site"])),
@@ -51,7 +54,7 @@ def cases(draw, tier):
             "stacked": draw(st.integers(0, 4)) == 0, "mpo_algo": draw(st.sampled_from(["qr", "Hopcroft-Karp"])),
             "guess_prep": draw(st.lists(st.sampled_from(["ensure_right", "ensure_left", "apply_h", "add_random", "canon_stop", "scale",
                                                          "previous_result"]), min_size=0, max_size=3)),
-            "prep_k": draw(st.integers(0, 6)),
+            "prep_k": draw(st.integers(0, 6)), "per_bond": per_bond,
             "full": full}
 
 
@@ -222,7 +225,14 @@ class C08(Prop):
         for M, pct, as_cfg in case["sched"]:
             if M < bound.max():
                 sufficient = False
-            proc.append([CompressConfig(CompressCriteria.fixed, max_bonddim=M) if as_cfg else M, pct])
+            if as_cfg and case.get("per_bond") and M >= bound.max():
+                # a limit per bond (max_dims): exactly the physical bound of each bond - still sufficient everywhere
+                cc = CompressConfig(CompressCriteria.fixed, max_bonddim=M)
+                cc.max_dims = np.minimum(bound, M).astype(int)
+                proc.append([cc, pct])
+                r.classes.append("per_bond_limits")
+            else:
+                proc.append([CompressConfig(CompressCriteria.fixed, max_bonddim=M) if as_cfg else M, pct])
         mps.optimize_config.procedure = proc
         mps.optimize_config.method = case["method"]
         mps.optimize_config.algo = case["algo"]
